@@ -14,14 +14,20 @@ LEVEL_TEXT = ("Theorems in Coq over an abstract field with conjugation (any orde
               "(vm_compute over Gaussian rationals, comparison inside Coq) and a property-directed search on the implementation.")
 TRUSTED = ["Coq 8.16.1 kernel + vm_compute (no native_compute)",
            "hand-written model coq/Model/Levinson.v, tied to levinson.py/toeplitz.py by the correspondence run only",
-           "numpy.linalg / scipy.linalg back ends of CHOLESKY are modelled as 'solve', not verified",
+           "CHOLESKY: numpy.linalg.solve / cholesky and scipy.linalg.cholesky / cho_solve are oracles of Model/Cholesky.v; the theorems assume what "
+           "the library documents of them (solve_spec, np_chol_spec, sp_chol_spec, cho_solve_spec: a returned factor factors, a returned solution solves); "
+           "the dispatch on `method` and the composition of the calls are regenerated from cholesky.py on every run by the fail-closed translator "
+           "tools/props/_c10_cholesky.py and proved equal to the model for all arguments; that the libraries meet the specifications is checked by the residual search only",
            "Python harness (snapshot, generators, float->dyadic conversion)"]
 TRUSTED = TRUSTED + [TRUSTED_LINE]
+LEVEL_TEXT = LEVEL_TEXT + (" CHOLESKY: over a model whose library calls are oracles, every accepted method returns a solution of A X = B given the documented "
+              "behaviour of the library routines, exactly three method strings are accepted, and the methods agree on non-singular systems; the dispatch and "
+              "call composition are regenerated from the source on every run and proved equal to the model.")
 LEVEL_TEXT = LEVEL_TEXT + (" Additionally the hand-written model is tied to the source text: a deep-embedded loop-IR program is regenerated from the Python source of LEVINSON, HERMTOEP, TOEPLITZ, levup, levdown on every run (fail-closed ast translator) and evaluated by the Coq interpreter at the exact instance against the model with zero tolerance (same outcome, every entry equal). For LEVINSON the tie is translation + theorem: coq/Proofs/LoopIRLevinson.v proves, for every input, that the interpreter run on "
            "the generated program returns / raises exactly as the model (complex dtype: unconditionally; float dtype: real-valued r with positive zero lag, allow_singularity=False); "
            "on every run the regenerated program is compared with the one the proof is about (reflexivity inside Coq) - if the source text changed the theorems are not claimed "
            "and the exact evaluation decides.")
-UNPROVED = ["CHOLESKY (numpy/scipy back ends): residual search only",
+UNPROVED = ["that numpy.linalg.cholesky / solve and scipy.linalg.cholesky / cho_solve meet their specifications (oracles of the CHOLESKY model): residual search only",
             ]
 ASSUMPTIONS = ["exact arithmetic in the theorems; rounding error of the binary64 code is not bounded by any theorem",
                "inputs of the correspondence run are dyadic rationals with few significant bits"]
@@ -221,6 +227,20 @@ def run(ctx):
     rng = ctx.rng
     ctx.check_theorems('Properties/C10.v')
     loopir_tie(ctx, ['LEVINSON', 'HERMTOEP', 'TOEPLITZ', 'levup', 'levdown'])      # IR programs regenerated from the source vs the model: exact, zero tolerance
+
+    # ---------------- CHOLESKY: dispatch + composition of library calls regenerated from cholesky.py, proved equal to Model/Cholesky.v
+    import os
+    from props import _c10_cholesky as CH
+    srcdir = os.path.join(vlib.SNAP, 'src', 'spectrum')
+    try:
+        wrong = CH.selftest(srcdir)
+        if wrong:
+            ctx.broken.append({'theorem': 'cholesky translator self-test (fail-closed behaviour)', 'where': '_c10_cholesky.py', 'log': '; '.join(wrong)})
+        ctx.check_generated('C10_cholesky', CH.generate(srcdir), CH.GEN_NAMES)
+    except CH.Fail as e:
+        for nm in CH.GEN_NAMES:
+            ctx.obligations.append((nm, False, []))
+        ctx.broken.append({'theorem': 'translator: cholesky.py outside the recognised shapes (%s)' % e, 'where': srcdir, 'log': str(e)})
 
     # ---------------- correspondence: LEVINSON
     cases = []; meta = []
